@@ -20,8 +20,14 @@ class C30(Prop):
              "expired segment of a reported path is deleted, a static path is reported as soon as the segment exists, and a "
              "segment written by the recorder for a path resolving to a matching regular-expression configuration is "
              "reported through its own name (C26 round trip) and deleted; the sequential path-by-path pass on the shrinking "
-             "tree leaves exactly the complement, in any order. Tied to the code by running the real doRun (timeNow set) "
-             "on generated trees and configuration sets and comparing the set of removed files inside Coq.",
+             "tree leaves exactly the complement, in any order. Every literal byte of a record path stands for itself, regexp "
+             "metacharacters (the dots of cam.1, v1.0/ and .mp4) included: under a record path whose only variable-width group "
+             "is %path (every documented layout, flat ones like rec/%path_%Y-%m-%d_%H-%M-%S-%f included) a file is a segment of "
+             "at most one path name, so when the configurations share it a deleted segment of pn went under the retention pn "
+             "itself resolves to, never under a look-alike sibling's (cam.1 / camA1); for any record path (several %path) every "
+             "expired segment of a reported path is deleted. Tied to the code by running the real doRun (timeNow set) "
+             "on generated trees and configuration sets and comparing the set of removed files inside Coq, plus the generator's "
+             "ground truth (which file the real Encode wrote for which path and start) checked without Decode.",
         note="Rests on the anchored Decode (fix 2b44fe1, C26): before it the cleaner deleted foreign *.mp4.bak files. "
              "Oracles shipped per case: Regexp.FindStringSubmatch != nil per (configuration, candidate name); the configuration "
              "FindPathConf returns per candidate name (precedence itself is C14). The theorems hold for every local zone (C26's lzone) and, for zone-database tables (DST), "
@@ -30,7 +36,9 @@ class C30(Prop):
              "paths (filepath.Abs = identity). Symbolic links count as non-directories (WalkDir does not follow them; a link "
              "named like an expired segment is unlinked). Not modelled: deleteEmptyDirs (directories only; observed: its walk "
              "stops after the first directory it removes, so at most one empty directory goes per path and pass), WalkDir I/O "
-             "errors, the timer loop / reload channel.",
+             "errors, the timer loop / reload channel. Known finding multi-path-ambiguous-name (C26 degenerate-format): with %path "
+             "twice a name containing the separating literal is never reported by a regular-expression configuration "
+             "(C30_multi_path_refuted); the same formats with other names are part of every run and must be cleaned.",
         technique="Coq proof (filter/existsb characterisation of the pass, fold-of-filters = filter-of-union for the sequential "
                   "pass, reuse of C26 round-trip and whole-name theorems and C31's substitution lemma) + correspondence by vm_compute")
     rule = ("per case: fixed local zone (0, +1 h, -3:30, +5:45); 1-4 configurations (static a, a/b, cam1, x/cam, b, cam2; regexps "
@@ -39,13 +47,25 @@ class C30(Prop):
             "rec vs recx, %s flat names, date directories, %z); 2-6 groups of 1-4 segments written with the real Encode for "
             "names that match/do not match/resolve elsewhere, starts at now-deleteAfter exactly, +-1 ns/us/ms/s, older, newer, "
             "future; look-alikes (suffix .bak ~ .tmp x, prefix old+), directories named like segments (with nested.mp4), "
-            "symbolic links named like segments, foreign files. Observables: FindAllPathsWithSegments output, set of "
+            "symbolic links named like segments, foreign files. 45 % of the cases come from three families with one record path and "
+            "extension for all configurations: flat-lookalike (4/20: %path is part of the file name - rec/%path_%Y-..., rec/%path-%s, "
+            "%path_%s-%f, rec/v1.0/%path.%Y-..., rec/%path.%s.%f, ...%f%z; static cam.1 camA1 cam11 cam_1 Cam.1 a.b aXb v1.2/cam "
+            "v1x2/cam, regexps ~^cam.*$ ~^cam\\.[0-9]$ ~^(a|v1).*$ ~^[a-z.]+[0-9]$ all_others; every group is also written with the "
+            "same starts for 1-2 look-alike siblings of its name), metachar-literals (3/20: each of the 14 characters Decode "
+            "escapes - \\ . + * ? ^ $ ( ) [ ] { } | - as a literal of the record path before and after %path, 15 shapes), "
+            "multi-path (2/20: %path twice, separated by / . _ + or nothing; names containing the separator in 1/5 of them = "
+            "class multi-path-ambiguous-name, a known finding); in the first two a third of the segments get a foreign "
+            "neighbour: one metacharacter of the name replaced by '#', dropped, or replaced by what the unescaped expression "
+            "would accept (never to be removed). Ground truth per written segment (path, configuration, start) is shipped and "
+            "checked without Decode: it must be removed when its path resolves to a configuration with that record path, "
+            "deleteAfter <> 0 and the start expired. The class shows the family (+siblings, +foreign). Observables: FindAllPathsWithSegments output, set of "
             "non-directories removed by doRun. Non-trivial = some but not all files removed; distinct = distinct descriptions")
     trusted_base = ["Coq 8.16.1 kernel + VM (vm_compute for cases)",
                     "in-package Go driver zz_verif_c30_test.go (real files under VERIF_WORK)",
                     "models Model/C26_RecPath.v + Model/C31_DeleteSeg.v + Model/C30_Cleaner.v hand-written, tied by correspondence (0 mismatches required)",
                     "oracle: regexp match per (configuration, name) and conf.FindPathConf result per name (shipped per case)",
-                    "spec_fail uses C26's decode as the definition of 'segment of path p starting at t' plus generator labels for look-alikes"]
+                    "spec_fail uses C26's decode as the definition of 'segment of path p starting at t' plus generator labels for look-alikes "
+                    "and foreign files, and the generator's own record of what it wrote with the real Encode (no Decode) for 'must be removed'"]
     assumptions = ["record paths are absolute and clean, ASCII, '/' separators", "the driver sets time.Local to fixed-offset zones (real zones are driven by C26; theorems cover both)",
                    "no I/O errors during the walks; nobody else changes the tree during a pass",
                    "RecordDeleteAfter small enough for time.Time.Add not to saturate"]
